@@ -252,10 +252,11 @@ def r4_drawing_verified(idx, r):
                         if isinstance(t, ast.Name):
                             tainted.add(t.id)
         for n in walk_local(g.node):
-            if isinstance(n, ast.If) and any(isinstance(x, ast.Raise) for x in n.body):
-                names = {getattr(x, "attr", None) or getattr(x, "id", None) for x in ast.walk(n.test) if isinstance(x, (ast.Attribute, ast.Name))}
-                if names & tainted:
-                    return True
+            if isinstance(n, ast.Raise):  # a raise that stands under a condition on the data, whether written as `if bad: raise` or as a guard clause before it
+                for t, _pol in path_conditions(g.node, n):
+                    names = {getattr(x, "attr", None) or getattr(x, "id", None) for x in ast.walk(t) if isinstance(x, (ast.Attribute, ast.Name))}
+                    if names & tainted:
+                        return True
         return False
 
     def ev(n):
